@@ -5,6 +5,8 @@
    and deps were added, and with it the order in which concurrent parses/resolutions filled the slice). *)
 From Coq Require Import Permutation.
 From PlzV Require Import Base.Harness Model.C08 Model.C08_Set Model.C08_Spec Gen.RuleHashProg Proof.C07.
+From PlzV Require Import Model.C07_Src Proof.C07_Src.
+From PlzV Require Gen.C07SourceHash.
 
 (* For every hash function, for the rule hash (runtime = false) and the runtime hash alike: any two presentations
    of one well-formed target - every map-valued attribute (named srcs, named outs, named data, provides, entry
@@ -42,3 +44,77 @@ Proof.
   - apply perm_swap.
   - apply perm_swap.
 Qed.
+
+(* ------------------------------------------------------------------------------------------------------------------
+   The source hash.  `C07SourceHash.prog` is sourceHash as regenerated from the source (its two loops, and whether
+   BuildDependencies / allBuildInputs sort).  A build graph is presented with, for EVERY node, the named-source and
+   named-tool maps listed in some order and the dependency slice in some order (graph_same); the exported entries of a
+   slice keep their relative order (exported_same): ExportedDependencies() returns them unsorted, and that order is the
+   order of the arguments in the BUILD file - ordered data of the definition, not an enumeration order.  The run-time
+   dependencies a node yields, recursivelyProvideFor and the paths of an input are data of the graph.
+
+   For every hash function H, every path hasher PH and every fuel: the stream sourceHash writes for `top` is hashed to
+   the same value in both presentations - and it runs out of fuel (None) in both or in neither. *)
+Definition C07_src_statement : Prop :=
+  forall (D : Type) (H : str -> D) (PH : str -> str) (fuel : nat) (g g' : graph) (top : label),
+    graph_wf g -> graph_same g g' -> exported_same g g' ->
+    option_map H (src_stream PH C07SourceHash.prog fuel g top) = option_map H (src_stream PH C07SourceHash.prog fuel g' top).
+
+Theorem C07_src_full : C07_src_statement.
+Proof. exact C07_src_full_proof. Qed.
+Print Assumptions C07_src_full.
+
+(* Non-vacuity: t (needs transitive dependencies) has two named source groups and two named tool groups listed in two
+   orders and a slice of four dependencies (l is a source, a b c are build dependencies) in two orders; a and b both
+   depend on d and e (two diamonds: `done` stops the second visit), in opposite stored orders; c is output-complete,
+   so its EXPORTED dependency x is followed (and x's only path has the same tmp path as e's: IterSources' `done`
+   drops it); d has a run-time dependency r.  Both presentations give one stream, in fuel 3 (the depth t-a-d), and
+   run out of fuel at 2. *)
+Example C07_src_nonvacuous :
+  let L n := Label [] (s "p") n in
+  let bd n := Dep (L n) [L n] true false in
+  let mk ns nt dt da db dc :=
+    Graph [(L (s "t"), Node [IFile (s "t.go")] ns [IFile (s "tool")] nt [] dt true false []);
+           (L (s "a"), Node [] [] [] [] [] da false false []); (L (s "b"), Node [] [] [] [] [] db false false []);
+           (L (s "c"), Node [] [] [] [] [] dc false true []); (L (s "d"), Node [] [] [] [] [] [] false false [L (s "r")]);
+           (L (s "e"), empty_node); (L (s "x"), empty_node); (L (s "l"), empty_node); (L (s "r"), empty_node)]
+          []
+          [(IFile (s "t.go"), [(s "p/t.go", s "T/p/t.go")]); (IFile (s "a.txt"), [(s "p/a.txt", s "T/p/a.txt")]);
+           (IFile (s "tool"), [(s "/bin/tool", s "T/tool")]); (IFile (s "t1"), [(s "/bin/t1", s "T/t1")]);
+           (IFile (s "t2"), [(s "/bin/t2", s "T/t2")]); (ILabel (L (s "l")), [(s "G/l", s "T/l")]);
+           (ILabel (L (s "a")), [(s "G/a", s "T/a")]); (ILabel (L (s "b")), [(s "G/b", s "T/b")]); (ILabel (L (s "c")), [(s "G/c", s "T/c")]);
+           (ILabel (L (s "d")), [(s "G/d1", s "T/d1"); (s "G/d2", s "T/d2")]); (ILabel (L (s "e")), [(s "G/e", s "T/e")]);
+           (ILabel (L (s "x")), [(s "G/x", s "T/e")]); (ILabel (L (s "r")), [(s "G/r", s "T/r")])] in
+  let sl := Dep (L (s "l")) [L (s "l")] false false in let ex := Dep (L (s "x")) [L (s "x")] true true in
+  let g := mk [(s "b", [ILabel (L (s "l"))]); (s "a", [IFile (s "a.txt")])] [(s "k2", [IFile (s "t2")]); (s "k1", [IFile (s "t1")])]
+              [sl; bd (s "a"); bd (s "b"); bd (s "c")] [bd (s "d"); bd (s "e")] [bd (s "e"); bd (s "d")] [ex; bd (s "d")] in
+  let g' := mk [(s "a", [IFile (s "a.txt")]); (s "b", [ILabel (L (s "l"))])] [(s "k1", [IFile (s "t1")]); (s "k2", [IFile (s "t2")])]
+               [bd (s "c"); bd (s "a"); sl; bd (s "b")] [bd (s "e"); bd (s "d")] [bd (s "d"); bd (s "e")] [bd (s "d"); ex] in
+  let PH p := s "<" ++ p ++ s ">" in
+  graph_wf g /\ graph_same g g' /\ exported_same g g' /\ g <> g'
+  /\ src_stream PH C07SourceHash.prog 3 g (L (s "t"))
+     = Some (s "<p/t.go>p/t.go<p/a.txt>p/a.txt<G/l>G/l<G/a>G/a<G/d1>G/d1<G/d2>G/d2<G/r>G/r<G/e>G/e<G/b>G/b<G/c>G/c</bin/tool></bin/t1></bin/t2>")
+  /\ src_stream PH C07SourceHash.prog 3 g' (L (s "t")) = src_stream PH C07SourceHash.prog 3 g (L (s "t"))
+  /\ src_stream PH C07SourceHash.prog 2 g (L (s "t")) = None.
+Proof.
+  cbv zeta. split; [vm_compute; reflexivity|]. split; [|split].
+  - split; [|split; reflexivity]. cbn [g_nodes].
+    repeat (apply Forall2_cons; [split; [reflexivity|] | ]); try apply Forall2_nil; try apply node_same_refl.
+    + repeat split; try reflexivity; cbn.
+      * apply perm_swap.
+      * apply perm_swap.
+      * apply (Permutation_cons_app [_; _] [_]). cbn. apply (Permutation_cons_app [_] [_]). cbn. apply perm_swap.
+    + repeat split; try reflexivity. cbn. apply perm_swap.
+    + repeat split; try reflexivity. cbn. apply perm_swap.
+    + repeat split; try reflexivity. cbn. apply perm_swap.
+  - cbn [g_nodes]. repeat (apply Forall2_cons; [vm_compute; reflexivity|]). apply Forall2_nil.
+  - split; [discriminate|]. split; [vm_compute; reflexivity|]. split; vm_compute; reflexivity.
+Qed.
+
+(* The hypothesis exported_same cannot be dropped: the model (like the code) hashes two presentations that differ only
+   in the stored order of two exported dependencies differently. *)
+Example C07_src_exported_order_is_observable :
+  ~ (forall (D : Type) (H : str -> D) (PH : str -> str) (fuel : nat) (g g' : graph) (top : label),
+       graph_wf g -> graph_same g g' ->
+       option_map H (src_stream PH C07SourceHash.prog fuel g top) = option_map H (src_stream PH C07SourceHash.prog fuel g' top)).
+Proof. exact exported_order_is_observable. Qed.
